@@ -1,6 +1,7 @@
 #!/bin/bash
-# Builds the framework offline and warms the Go build cache (plain and -race, with the overlays) so that quick checks
-# start fast. Everything is rebuilt again from /repo's working tree by /verif/check at check time.
+# Builds the framework offline and warms the Go build cache (plain and -race, with the overlays) for every check that
+# MANIFEST.json claims, so that quick checks start fast. Everything is rebuilt from /repo's working tree by
+# /verif/check at check time anyway; a warm-up build that fails is reported but does not fail the setup.
 set -u
 export GOFLAGS=-mod=mod GOPROXY=off
 unset GOSUMDB GOTOOLCHAIN
@@ -9,9 +10,7 @@ cp /repo/go.sum go.sum
 mkdir -p /verif/bin /verif/evidence /verif/replays /verif/.work
 go build -o /verif/bin/instrument ./cmd/instrument || exit 1
 (cd /repo && go build ./...) || exit 1
-fail=0
-for d in cmd/c[0-9][0-9]; do
-  id=$(basename "$d" | tr 'a-z' 'A-Z')
-  VERIF_BUILD_ONLY=1 /verif/check "$id" >/dev/null 2>/verif/.work/setup_$id.log || { echo "setup: build of $id failed"; cat /verif/.work/setup_$id.log | head -20; fail=1; }
+for id in $(jq -r '.checks[].property_id' /verif/MANIFEST.json); do
+  VERIF_BUILD_ONLY=1 /verif/check "$id" >/dev/null 2>/verif/.work/setup_$id.log || { echo "setup: warm-up build of $id failed (the check will report it)"; head -5 /verif/.work/setup_$id.log; }
 done
-exit $fail
+exit 0
